@@ -36,7 +36,14 @@ Stmts(s, li) == IF li = 0 THEN s.dl ELSE Prog(s).lines[li].s
 Bare(s)     == IF "bare" \in DOMAIN Prog(s) THEN Prog(s).bare ELSE <<>>
 IsBare(s, v) == \E i \in 1..Len(Bare(s)) : Bare(s)[i].n = v
 Twin(s, v)  == Bare(s)[CHOOSE i \in 1..Len(Bare(s)) : Bare(s)[i].n = v]
-Res(s, v)   == IF IsBare(s, v) THEN (IF v \in s.dti THEN Twin(s, v).i ELSE Twin(s, v).f) ELSE v
+Res(s, v)   == IF IsBare(s, v) THEN (IF v \in s.dts THEN Twin(s, v).s ELSE IF v \in s.dti THEN Twin(s, v).i ELSE Twin(s, v).f) ELSE v
+(* String variables (C22: READ into string variables, DEFSTR).  The optional program field `strs` lists them; a bare name may
+   have a string twin (field s of its `bare` entry) that DEFSTR selects (s.dts).  The value of a string variable is kept
+   abstract: 0 for the empty string, StrBase + n for the text of DATA item n (a numeric item read into a string variable is
+   the text of that number; the text of a non-numeric item carries its number).  Strings are only READ, PRINTed and copied;
+   a string operand inside an arithmetic expression is outside the fragment.                                              *)
+StrBase == 500000
+IsStrVar(s, v) == "strs" \in DOMAIN Prog(s) /\ \E i \in 1..Len(Prog(s).strs) : Prog(s).strs[i] = Res(s, v)
 IsIntVar(s, v) == \E i \in 1..Len(Prog(s).ints) : Prog(s).ints[i] = Res(s, v)
 Norm(s, p)   == IF p[1] >= 1 /\ p[1] <= NL(s) /\ p[2] > Len(Stmts(s, p[1])) THEN <<p[1] + 1, 1>> ELSE p
 After(s, p)  == Norm(s, <<p[1], p[2] + 1>>)
@@ -110,6 +117,7 @@ Start(p) ==
      out |-> <<>>, stat |-> [k |-> "run", code |-> 0, line |-> 0],
      havoc |-> {}, frag |-> FALSE,
      dti |-> {},            \* bare names (see Bare) that a DEFINT in force types as integer
+     dts |-> {},            \* bare names that a DEFSTR in force types as string
      kf |-> FALSE]          \* TRUE: this behaviour is only explained by a listed known deviation (see DoClear)
 
 VarIdx(s, v) == CHOOSE i \in 1..Len(Prog(s).vars) : Prog(s).vars[i] = Res(s, v)
@@ -176,7 +184,7 @@ EvalFn(s, e) ==
                  ELSE IF IsIntVar(s, e.f) /\ ~InInt16(b.v) THEN Er(6) ELSE Ok(b.v)
 Eval(s, e) ==
     CASE e.k = "c"   -> Ok(e.v)
-      [] e.k = "v"   -> IF Res(s, e.n) \in s.havoc THEN Er(-1) ELSE Ok(Get(s, e.n))
+      [] e.k = "v"   -> IF Res(s, e.n) \in s.havoc \/ IsStrVar(s, e.n) THEN Er(-1) ELSE Ok(Get(s, e.n))
       [] e.k = "err" -> Ok(s.err)
       [] e.k = "erl" -> Ok(s.erl)
       [] e.k = "fn"  -> EvalFn(s, e)
@@ -340,10 +348,13 @@ ReadFrom(s, st, j) ==
     LET it == Items(s) IN
     IF s.dp > Len(it) THEN Raise(s, 4) ELSE
     LET item == it[s.dp] v == st.vs[j] IN
-    IF ~item.num
+    IF IsStrVar(s, v)
+    THEN \* a string variable takes any item as it is written
+         ReadFrom([SetVar(s, v, StrBase + item.v) EXCEPT !.dp = s.dp + 1], st, j + 1)
+    ELSE IF ~item.num
     THEN \* non-numeric item into a numeric variable: Syntax error reported on the DATA line; the value
          \* left in the variable is not specified; the item is not consumed
-         RaiseAt([s EXCEPT !.havoc = @ \cup {v}], 2, LineNo(s, <<item.li, 1>>))
+         RaiseAt([s EXCEPT !.havoc = @ \cup {Res(s, v)}], 2, LineNo(s, <<item.li, 1>>))
     ELSE IF ~Conv(s, v, item.v).ok THEN Raise(s, 6)
     ELSE ReadFrom([SetVar(s, v, item.v) EXCEPT !.dp = s.dp + 1], st, j + 1)
 
@@ -382,7 +393,7 @@ Dispatched(s) == {DispatchSeq(s, o) : o \in Orders(Dispatchable(s))}
 \* continues with the next statement.  (keepGosub = TRUE gives the behaviour of the pinned code, which keeps the
 \* GOSUB stack: a listed known finding; traces only explained that way are reported as such, never silently accepted.)
 Cleared(s, keepGosub) ==
-    [s EXCEPT !.vars = [i \in 1..Len(s.vars) |-> 0], !.havoc = {}, !.fns = <<>>, !.dti = {},
+    [s EXCEPT !.vars = [i \in 1..Len(s.vars) |-> 0], !.havoc = {}, !.fns = <<>>, !.dti = {}, !.dts = {},
               !.fors = <<>>, !.whiles = <<>>, !.gosubs = IF keepGosub THEN @ ELSE <<>>,
               !.onerr = 0, !.inh = FALSE, !.resume = None, !.err = 0, !.erl = 0,
               !.traps = NoTraps, !.susp = FALSE, !.dp = 1,
@@ -399,6 +410,7 @@ DoRun(s, st) ==
 StartDirect(s, dl) == [s EXCEPT !.dl = dl, !.pc = <<0, 1>>, !.cur = <<0, 1>>, !.run = TRUE, !.out = <<>>,
                                 !.stat = [k |-> "run", code |-> 0, line |-> 0]]
 
+StrOperand(s, e) == e.k = "v" /\ IsStrVar(s, e.n) /\ Res(s, e.n) \notin s.havoc
 (* ---------------- one statement ---------------- *)
 Exec(s0) ==
     LET p == s0.pc IN
@@ -411,10 +423,16 @@ Exec(s0) ==
     ELSE
     LET st == StmtAt(s0, p)
         s  == [s0 EXCEPT !.cur = p, !.out = <<>>] IN
-    CASE st.op = "LET"    -> LET r == Eval(s, st.e) IN IF ~r.ok THEN Fail(s, r)
+    CASE st.op = "LET"    -> \* (a string variable is only ever assigned another string variable; mixing the kinds is a Type mismatch)
+                             IF IsStrVar(s, st.v) \/ StrOperand(s, st.e)
+                             THEN IF IsStrVar(s, st.v) /\ StrOperand(s, st.e) THEN Adv(SetVar(s, st.v, Get(s, st.e.n)))
+                                  ELSE IF st.e.k \in {"v", "c"} THEN Raise(s, 13) ELSE Frag(s)
+                             ELSE LET r == Eval(s, st.e) IN IF ~r.ok THEN Fail(s, r)
                              ELSE IF ~Conv(s, st.v, r.v).ok THEN Raise(s, 6) ELSE Adv(SetVar(s, st.v, r.v))
-      [] st.op = "PRINT"  -> LET r == Eval(s, st.e) IN IF ~r.ok THEN Fail(s, r) ELSE Adv([s EXCEPT !.out = <<r.v>>])
-      \* (loop counters and READ targets whose type depends on DEFINT are outside the fragment)
+      [] st.op = "PRINT"  -> IF StrOperand(s, st.e)          \* the text of the string: nothing for the empty one, else its number
+                             THEN Adv([s EXCEPT !.out = IF Get(s, st.e.n) = 0 THEN <<>> ELSE <<Get(s, st.e.n) - StrBase>>])
+                             ELSE LET r == Eval(s, st.e) IN IF ~r.ok THEN Fail(s, r) ELSE Adv([s EXCEPT !.out = <<r.v>>])
+      \* (loop counters whose type depends on DEFINT are outside the fragment)
       [] st.op = "FOR"    -> IF IsBare(s, st.v) THEN Frag(s) ELSE DoFor(s, st)
       [] st.op = "NEXT"   -> IF \E j \in 1..Len(st.vs) : IsBare(s, st.vs[j]) THEN Frag(s) ELSE NextFrom(s, st, 1)
       [] st.op = "WHILE"  -> DoWhile(s, st)
@@ -430,15 +448,16 @@ Exec(s0) ==
       [] st.op = "ONERR"  -> DoOnErr(s, st)
       [] st.op = "RESUME" -> DoResume(s, st)
       [] st.op = "ERROR"  -> DoError(s, st)
-      [] st.op = "READ"   -> IF \E j \in 1..Len(st.vs) : IsBare(s, st.vs[j]) THEN Frag(s) ELSE ReadFrom(s, st, 1)
+      [] st.op = "READ"   -> ReadFrom(s, st, 1)
       [] st.op = "DATA"   -> Adv(s)
       [] st.op = "RESTORE" -> DoRestore(s, st)
       [] st.op = "TRAP"   -> DoTrapCmd(s, st)
       [] st.op = "ONTRAP" -> DoOnTrap(s, st)
       [] st.op = "RUN"    -> DoRun(s, st)
       [] st.op = "DEFFN"  -> Adv([s EXCEPT !.fns = Append(@, [f |-> st.f, ps |-> st.ps, e |-> st.e])])
-      [] st.op = "DEFTYPE" -> Adv([s EXCEPT !.dti = IF st.t = "%" THEN @ \cup {st.ns[j] : j \in 1..Len(st.ns)}
-                                                            ELSE @ \ {st.ns[j] : j \in 1..Len(st.ns)}])
+      [] st.op = "DEFTYPE" -> LET ns == {st.ns[j] : j \in 1..Len(st.ns)} IN       \* t: "%" DEFINT, "!" DEFSNG, "$" DEFSTR
+                              Adv([s EXCEPT !.dti = IF st.t = "%" THEN @ \cup ns ELSE @ \ ns,
+                                            !.dts = IF st.t = "$" THEN @ \cup ns ELSE @ \ ns])
       [] st.op = "REM"    -> [s EXCEPT !.pc = NextLine(s.cur)]
 
 \* a statement boundary: dispatch pending traps (any order), then execute one statement
